@@ -35,6 +35,10 @@ func (m *Multi) ClearLoaders() {
 // Open will open the file passed by trying all loaders in succession.
 func (m *Multi) Open(name string) (io.ReadCloser, error) {
 	for _, loader := range m.loaders {
+		// answer from the same loader Exists answers from
+		if !loader.Exists(name) {
+			continue
+		}
 		if f, err := loader.Open(name); err == nil {
 			return f, nil
 		}
